@@ -6,6 +6,7 @@ import (
 	"fmt"
 	"go/token"
 	"go/types"
+	"regexp"
 	"sort"
 	"strings"
 
@@ -81,6 +82,9 @@ func leafKey(v ssa.Value) string {
 	case *ssa.Call:
 		cc := x.Common()
 		name := ""
+		if bi, isB := cc.Value.(*ssa.Builtin); isB && bi.Name() == "len" && len(cc.Args) == 1 {
+			return "len(" + leafKey(cc.Args[0]) + ")"
+		}
 		if cc.IsInvoke() {
 			name = cc.Method.Name()
 			if len(cc.Args) == 0 {
@@ -428,4 +432,88 @@ func boolFieldGuard(g Guard) (field string, pol bool, ok bool) {
 		}
 	}
 	return "", false, false
+}
+
+// polyX is polyOf with the integer accessors of module types replaced by their bodies, so that
+// x.RemainingLength(), x.Length()-x.PointerPosition and len(x.Chars)-x.PointerPosition are one
+// and the same polynomial.
+func polyX(v ssa.Value) *Poly { return expandAccessors(polyOf(v), 0) }
+
+func expandAccessors(pl *Poly, depth int) *Poly {
+	out := newPoly()
+	out.C = pl.C
+	for k, c := range pl.Terms {
+		v := pl.leafV[k]
+		if sub := accessorBody(v, depth); sub != nil {
+			out.addScaled(sub, c)
+			continue
+		}
+		out.Terms[k] += c
+		out.leafV[k] = v
+		if out.Terms[k] == 0 {
+			delete(out.Terms, k)
+		}
+	}
+	return out
+}
+
+// accessorBody: v is a call x.m() of a module method that only computes an integer from its
+// receiver (one block, no stores, no calls but len and other accessors): its result as a
+// polynomial over the receiver at the call site.
+func accessorBody(v ssa.Value, depth int) *Poly {
+	if depth > 4 || v == nil || gp == nil {
+		return nil
+	}
+	call, ok := deref(v).(*ssa.Call)
+	if !ok || call.Call.IsInvoke() || len(call.Call.Args) != 1 {
+		return nil
+	}
+	g := rawStaticCallee(call)
+	if g == nil || !gp.inMod(g) || len(g.Params) != 1 || len(g.Blocks) != 1 || g.Signature.Results().Len() != 1 || !isIntType(g.Signature.Results().At(0).Type()) {
+		return nil
+	}
+	var ret *ssa.Return
+	for _, in := range g.Blocks[0].Instrs {
+		switch x := in.(type) {
+		case *ssa.FieldAddr, *ssa.Field, *ssa.BinOp, *ssa.Convert, *ssa.DebugRef:
+		case *ssa.UnOp:
+			if x.Op != token.MUL && x.Op != token.SUB {
+				return nil
+			}
+		case *ssa.Call:
+			if bi, isB := x.Call.Value.(*ssa.Builtin); isB && bi.Name() == "len" {
+				continue
+			}
+			if x.Call.IsInvoke() || rawStaticCallee(x) == nil || len(x.Call.Args) != 1 {
+				return nil
+			}
+		case *ssa.Return:
+			ret = x
+		default:
+			return nil
+		}
+	}
+	if ret == nil || len(ret.Results) != 1 {
+		return nil
+	}
+	was := ht.enabled
+	ht.enabled = false
+	cp := expandAccessors(polyOf(ret.Results[0]), depth+1)
+	ht.enabled = was
+	re := regexp.MustCompile(`param:` + regexp.QuoteMeta(g.Params[0].Name()) + `\b`)
+	recvKey := leafKey(call.Call.Args[0])
+	out := newPoly()
+	out.C = cp.C
+	for k, c := range cp.Terms {
+		if !re.MatchString(k) {
+			return nil // depends on something that is not the receiver
+		}
+		nk := re.ReplaceAllLiteralString(k, recvKey)
+		out.Terms[nk] += c
+		out.leafV[nk] = cp.leafV[k]
+		if out.Terms[nk] == 0 {
+			delete(out.Terms, nk)
+		}
+	}
+	return out
 }
